@@ -178,6 +178,13 @@ def tool_oracle(data):
     return b"".join(l + b"\n" for l in lines if py_is_utf8(l))
 
 
+def load_replay(c):
+    if not c.replay:
+        return None
+    body = json.load(open(c.replay))
+    return body.get("replay") if isinstance(body.get("replay"), dict) else None
+
+
 def main(argv):
     c = Check("C12", argv)
     ok, blog = build_repo(["hx_utf8", "remove_invalid_utf8"])
@@ -196,6 +203,13 @@ def main(argv):
     os.makedirs(SCRATCH, exist_ok=True)
 
     D, U, I = gen_cases(c)
+    rp = load_replay(c)
+    if rp is not None:       # --replay: the recorded input is evaluated first, then the normal run
+        if rp.get("op") in ("DecodeUTF8", "grid") and rp.get("input_hex"):
+            D.insert(0, bytes.fromhex(rp["input_hex"]))
+        if rp.get("op") in ("IsUTF8", "iterator") and rp.get("input_hex") is not None:
+            U.insert(0, bytes.fromhex(rp["input_hex"]))
+            I.insert(0, bytes.fromhex(rp["input_hex"]))
     lines = ["D " + hexs(b) for b in D] + ["U " + hexs(b) for b in U] + ["I " + hexs(b) for b in I]
     for b in D:
         r = py_first(b[:4])
@@ -204,7 +218,7 @@ def main(argv):
         c.count(("U", b), nontrivial=len(b) > 0, bucket="is_utf8/" + ("well-formed" if py_is_utf8(b) else "ill-formed"))
     for b in I:
         c.count(("I", b), nontrivial=len(b) > 0, bucket="iterator")
-    c.sample({"op": "D", "hex": hexs(D[70000])})
+    c.sample({"op": "D", "hex": hexs(D[min(70000, len(D) - 1)])})
     c.sample({"op": "U", "hex": hexs(U[40])})
     c.sample({"op": "U", "hex": hexs(U[41])})
 
@@ -291,6 +305,8 @@ def main(argv):
 
     # ---- tool level: bin/remove_invalid_utf8 vs model and vs the statement
     files = gen_files(c)
+    if rp is not None and rp.get("op") == "remove_invalid_utf8" and rp.get("stdin_hex") is not None:
+        files.insert(0, bytes.fromhex(rp["stdin_hex"]))
     model_out = None
     if drv is not None:
         rc, mo, err = run_lines(drv, ["R " + hexs(f) for f in files])
